@@ -45,7 +45,11 @@ Judge1(cat, pre, e) ==
       F(ids) == FitsOn(cat, ids)
       post0 == IF e.same THEN pre ELSE Classify(cat, cmd, e.post)
       post == [post0 EXCEPT !.big = pre.big]          \* "big" (>= 161,280 bytes) is carried for classification only, not compared
-      refused == post = pre /\ pre.kind # "absent" /\ ~(cmd.tool = "asm" /\ cmd.sw \in {"cas", "dsk"} /\ ~cmd.named)
+      refused == post = pre /\ pre.kind # "absent" /\ ~(cmd.tool = "asm" /\ cmd.sw \in {"cas", "dsk"} /\ ~cmd.named) /\ cmd.sw # "list"
+      \* what --list must print for an image: one entry per file it holds, in order, with its name and data length (read by the TOOL's reader: this
+      \* compares the tool's reader with the specification's reader after every history)
+      wantlist == [j \in DOMAIN pre.files |-> IF Known(cat, pre.files[j]) THEN [name |-> Name8(FileOf(cat, pre.files[j]).name), len |-> Len(FileOf(cat, pre.files[j]).data)]
+                                                ELSE [name |-> <<>>, len |-> -1]]
       cl == [allowed |-> post \in Allowed(pre, cmd, F),
              onlyappend |-> OnlyAppendModifies(pre, cmd, post),
              complete |-> CompleteImage(pre, cmd, post),
@@ -57,6 +61,9 @@ Judge1(cat, pre, e) ==
              wrote |-> WroteOK(pre, cmd, cat, e.hooks),
              capacity |-> CapacityRespected(pre, cmd, post, F),
              newpath |-> NewPathHoldsNew(pre, cmd, post),
+             readonly |-> ReadOnly(pre, cmd, post),
+             listed |-> (cmd.sw = "list" /\ pre.kind \in {"cas", "dsk"}) =>
+                          (e.exit = 0 /\ Len(e.listed) = Len(wantlist) /\ \A j \in DOMAIN wantlist : Name8(e.listed[j].name) = wantlist[j].name /\ e.listed[j].len = wantlist[j].len),
              notraceback |-> ~e.tb]
   IN [post |-> post0, failed |-> SetToSeq({c \in DOMAIN cl : ~cl[c]}),
       class |-> [tool |-> cmd.tool, sw |-> cmd.sw, app |-> cmd.app, named |-> cmd.named, pre |-> pre.kind, big |-> pre.big,
